@@ -190,7 +190,7 @@ def write_replay(property_id, engine, spec, violation, digest, base_seed):
 def replay_file(engine, path, known_keys):
     with open(path) as fh:
         doc = json.load(fh)
-    res = run_spec(engine, doc["spec"], known_keys, timeout=300)
+    res = run_spec(engine, doc["spec"], known_keys, timeout=max(300, getattr(engine, "RUN_TIMEOUT_S", 300)))
     exp = doc["expected"]
     same_cls = any(v["cls"] == exp["cls"] for v in res["violations"])
     same_digest = res["digest"] == doc["digest"]
@@ -288,7 +288,8 @@ def run_check(engine_factory, property_id, tier, base_seed, n_workers=None, scal
         rc = 1
         classes = sorted(unknown, key=lambda c: (-len(unknown[c]), c))
         for cls in classes[: engine.max_reported_classes()]:
-            r, v = min(unknown[cls], key=lambda rv: (rv[0]["n_ops"], rv[0]["idx"]))
+            cost = getattr(engine, "spec_cost", lambda spec: 0)  # (engines with very unequal run times prefer the cheap witnesses)
+            r, v = min(unknown[cls], key=lambda rv: (cost(rv[0]["spec"]) if rv[0].get("spec") is not None else 0, rv[0]["n_ops"], rv[0]["idx"]))
             spec = r["spec"]
             exec_budget, wall_budget = engine.minimise_budget(tier)
             try:
